@@ -1,6 +1,8 @@
 import ZenonVerif.Model.Proto
 /-
-L8 (part) — `chainBridge.InsertChain`, line by line.
+L8 (part) — `chainBridge.InsertChain`, line by line (as of 264f72a: an empty batch returns (0, nil); a batch
+whose first unknown momentum names a height the node does not hold — height 0, height 1, or frontier + 2 and
+above — is refused with the link error; neither touches the node).
 Stands for protocol/chain_bridge.go {InsertChain}; `applies` stands for the pair
 vm/supervisor.go {ApplyBlock for every account block, ApplyMomentum} + chain {AddMomentumTransaction}
 as one verdict per delivered momentum.
@@ -72,7 +74,8 @@ inductive Outcome where
   | errTooFar      -- "can't rollback … Too far"
   | errNotLonger   -- "won't insert side-chain which is not longer"
   | errVerify      -- error out of ApplyBlock / ApplyMomentum / Add…Transaction
-  | panic          -- run-time panic (index out of range, nil dereference)
+  | panic          -- run-time panic (index out of range, nil dereference): what an observer of the real
+                   -- call can see; the model never yields it (`C16.insert_total`)
   deriving DecidableEq, Repr
 
 /-- "Insert momentum now": `for index, detailed := range momentums`; `i` = index + start -/
@@ -90,7 +93,7 @@ def insertSuffix (valid : DM → Bool) (n : Node) (suffix : List DM) (start : Na
     let fr := n.frontier
     if head.prevId ≠ fr.id then
       match n.byHeight (pred64 head.height) with
-      | none => (n, 0, .panic)                              -- target.Identifier() on a nil target
+      | none => (n, 0, .errLink)                            -- target == nil: "can't link … no momentum at that height"
       | some target =>
         if target.id ≠ head.prevId then (n, 0, .errLink)
         else if sub64 fr.height target.height > Gen.InsertChainWindow then (n, 0, .errTooFar)
@@ -101,7 +104,7 @@ def insertSuffix (valid : DM → Bool) (n : Node) (suffix : List DM) (start : Na
 /-- `chainBridge.InsertChain(momentums)` → (node after, returned index, returned error class) -/
 def insertChain (valid : DM → Bool) (n : Node) (ms : List DM) : Node × Nat × Outcome :=
   match ms with
-  | [] => (n, 0, .panic)                                    -- a := momentums[0]
+  | [] => (n, 0, .ok)                                       -- len(momentums) == 0: return 0, nil
   | _ :: _ =>
     let suffix := dropKnown n ms
     insertSuffix valid n suffix (ms.length - suffix.length)
